@@ -32,11 +32,15 @@ R.kind_hints[("Node._connect_to_peer", "[]")] = "List[str]"
 
 del R.contracts["Node._connect_to_peer"]
 R.contract("Node._connect_to_peer", params={"self": "Node", "peer": "Peer"},
-           ghost_out={"c": ("conn", "PeerConnection")},
+           ghost_out={"c": ("conn", "PeerConnection"), "s": ("peer_socket", "Socket")},
            requires=[("generators", "seq_ok(self.end_to_end_seq)"),
                      ("identity-encodable", "encodable(self.origin_host) and encodable(self.realm_name)")],
            hints=[],
-           ensures=[("connected-peer-is-not-dialled-again",
+           ensures=[("a-dial-that-leaves-no-registered-connection-releases-socket-and-workers",
+                     "implies(old(is_none(peer.connection)) and old(len(peer.ip_addresses)) > 0 and "
+                     "not (c.ident in self.connections and self.connections[c.ident] == c), "
+                     "s.closed and workers_stopped(c))"),
+                    ("connected-peer-is-not-dialled-again",
                      "implies(old(not is_none(peer.connection)), unchanged(self.connections) and "
                      "peer.connection == old(peer.connection))")],
            raises=[Raise("RuntimeError", "True", "may")],
@@ -48,7 +52,9 @@ R.contract("Node._connect_to_peer", params={"self": "Node", "peer": "Peer"},
                      "dict:self._half_ready_connections", "*SequenceGenerator._sequence", "*Event.flag",
                      "*list:Peer", "dict:self._peer_waiting_answer", "*Socket.closed", "*StoppableThread.stopped",
                      "*PeerConnection.state"],
-           props=["C19", "C12"])
+           props=["C19", "C12", "C13"])
+
+R.contracts["Node._connect_to_peer"].ghost_bind = {"Node.close_connection_socket": {"gs": "peer_socket"}}
 
 # per-transaction tables
 R.contracts["Node._receive_app_answer"].ensures.append(
